@@ -1,6 +1,7 @@
 package rules
 
 import (
+	"go/token"
 	"fmt"
 	"go/types"
 	"sort"
@@ -38,6 +39,7 @@ type LockAnalysis struct {
 	funcs    []*ssa.Function
 
 	acquires map[*ssa.Function]lockMode                     // lock helpers: the mode the function leaves held on every return
+	releases map[*ssa.Function]string                       // release helpers: every path through the function releases the lock (the value is the operation, Unlock or RUnlock), none acquires it
 	state    map[*ssa.Function]map[ssa.Instruction]lockMode // lock mode held locally before each instruction
 	acc      map[*ssa.Function][]lockAccess
 	need     map[*ssa.Function]lockMode
@@ -106,6 +108,9 @@ func (la *LockAnalysis) computeStates(f *ssa.Function) {
 				deferredRelease = true
 			}
 		}
+		if g := an.StaticCallee(&d.Call); g != nil && la.releases[an.Origin(g)] != "" {
+			deferredRelease = true
+		}
 	})
 	in := map[*ssa.BasicBlock]lockMode{}
 	seen := map[*ssa.BasicBlock]bool{}
@@ -137,6 +142,9 @@ func (la *LockAnalysis) computeStates(f *ssa.Function) {
 			if call, isCall := ins.(*ssa.Call); isCall {
 				if g := an.StaticCallee(&call.Call); g != nil && la.acquires[g] > cur {
 					cur = la.acquires[g]
+				}
+				if g := an.StaticCallee(&call.Call); g != nil && la.releases[an.Origin(g)] != "" {
+					cur = lockNone
 				}
 			}
 		}
@@ -185,6 +193,37 @@ func NewLockAnalysis(c *Ctx, name string, isLock func(string) bool, accesses fun
 		state: map[*ssa.Function]map[ssa.Instruction]lockMode{}, acc: map[*ssa.Function][]lockAccess{},
 		need: map[*ssa.Function]lockMode{}, why: map[*ssa.Function]string{}}
 	la.acquires = map[*ssa.Function]lockMode{}
+	la.releases = map[*ssa.Function]string{}
+	for _, f := range la.funcs {
+		if len(f.Blocks) == 0 {
+			continue
+		}
+		nRel, nAcq := 0, 0
+		relOps := map[string]bool{}
+		an.AllInstrs(f, func(in ssa.Instruction) {
+			if op, _, ok := la.lockCall(in); ok {
+				if op == "Unlock" || op == "RUnlock" {
+					nRel++
+					relOps[op] = true
+				} else {
+					nAcq++
+				}
+			}
+		})
+		if nRel == 0 || nAcq > 0 || len(relOps) != 1 {
+			continue
+		}
+		path := (&an.Query{
+			Target:    func(t ssa.Instruction) bool { _, ok := t.(*ssa.Return); return ok },
+			Block:     func(t ssa.Instruction) bool { op, _, ok := la.lockCall(t); return ok && (op == "Unlock" || op == "RUnlock") },
+			BlockEdge: la.prunedEdge,
+		}).Search(an.Entry(f))
+		if path == nil {
+			for op := range relOps {
+				la.releases[an.Origin(f)] = op
+			}
+		}
+	}
 	for iter := 0; iter < 4; iter++ {
 		for _, f := range la.funcs {
 			la.computeStates(f)
@@ -325,6 +364,13 @@ func (la *LockAnalysis) CheckPairing(rule string, entries []*ssa.Function) {
 			}
 		})
 	}
+	// the obligation to release is handed from an acquire helper to its callers; it cannot be handed to the user:
+	// an exported function never returns with the lock held
+	for _, f := range la.funcs {
+		if la.acquires[f] > lockNone && token.IsExported(f.Name()) && f.Parent() == nil {
+			c.R.Add(rule, c.fk(f), "exported/returns-with-lock-released", c.P.Pos(f.Pos()), false, "the exported function returns with "+la.acquires[f].String()+" of the "+la.name+" still held on every path: every later operation blocks forever")
+		}
+	}
 	for _, f := range la.funcs {
 		an.AllInstrs(f, func(in ssa.Instruction) {
 			// call of a lock helper: its result (the unlock function) must be deferred or called on every path
@@ -332,7 +378,13 @@ func (la *LockAnalysis) CheckPairing(rule string, entries []*ssa.Function) {
 				if g := an.StaticCallee(&call.Call); g != nil && la.acquires[g] > lockNone {
 					released := func(t ssa.Instruction) bool {
 						tc := an.CallOf(t)
-						return tc != nil && tc.Value == ssa.Value(call)
+						if tc == nil {
+							return false
+						}
+						if rg := an.StaticCallee(tc); rg != nil && la.releases[an.Origin(rg)] == ifelse(la.acquires[g] == lockW, "Unlock", "RUnlock") {
+							return true // the matching release helper, called or deferred
+						}
+						return tc.Value == ssa.Value(call)
 					}
 					path := (&an.Query{
 						Target: func(t ssa.Instruction) bool {
